@@ -11,7 +11,7 @@ CHECKS['C16'] = dict(
          'and around every 1/2-subset rule (thorough: 3-subset) every truncation, undefined component type, reserved operator bit, misplaced AND, missing '
          'end-of-list and wider value width, goes through the real UPDATE decoder (Message.unpack, Update.parse, MP_REACH_NLRI, Flow.unpack_nlri); the '
          'delivered rule must be the one the reference decoder extracts and what the reference calls malformed must not be delivered. Exhaustive inside '
-         'the stated alphabets, which is the right level for a codec whose defects sit at width, length and ordering boundaries.',
+         'the stated alphabets, which is the right level for a codec whose defects sit at width, length and ordering boundaries. The value alphabets of the two bitmask components (tcp-flags, fragment) end with the first value beyond the defined bits, which no rule may carry.',
     note='Trusted: vt/ref/flowspec.py (golden vectors RFC 8955 4.3 ex. 1-3, RFC 8956 3.8 ex. 2-3, transcribed by hand). Tolerated: flow-label in 1/2/4 or '
          'always 4 octets, prefix bits beyond the length, refusal of input the RFC frowns upon. Outside the bound: the same keyword twice in one match block, '
          'interface-set / community actions, rate-limit clamping above 1e12, withdraw texts, ADD-PATH.',
